@@ -7,6 +7,7 @@ Modes (argv[1]):
             spelling obtained by replacing one substring by a single code point whose NFKD is
             exactly that substring (compatibility / precomposed variants), plus the NFC, NFD,
             NFKC and full-width spellings of the whole word.
+  decomp    argv[2] = output dir: every assigned code point with NFKD != itself
   pbkdf2    stdin lines "<hex password> <hex salt>" -> hex of PBKDF2-HMAC-SHA512(2048, 64) (OpenSSL)
   version   prints unicodedata.unidata_version
 """
@@ -86,6 +87,25 @@ def mode_variants(golden, outdir):
         o.write(repr(stats) + "\n" + unicodedata.unidata_version + "\n")
     print("variants:", stats)
 
+def mode_decomp(outdir):
+    """Every assigned code point whose NFKD differs from itself: 'cp<TAB>hex(NFKD)<TAB>kind'."""
+    os.makedirs(outdir, exist_ok=True)
+    n = 0
+    with open(os.path.join(outdir, "decomp.tsv"), "w", encoding="ascii") as o:
+        for cp in range(0x110000):
+            if 0xD800 <= cp <= 0xDFFF:
+                continue
+            ch = chr(cp)
+            if unicodedata.category(ch) == "Cn":
+                continue
+            d = unicodedata.normalize("NFKD", ch)
+            if d == ch:
+                continue
+            kind = "hangul" if 0xAC00 <= cp <= 0xD7A3 else ("canonical" if unicodedata.normalize("NFD", ch) == d else "compat")
+            o.write("%X\t%s\t%s\n" % (cp, d.encode("utf-8").hex(), kind))
+            n += 1
+    print("decomp:", n)
+
 def mode_pbkdf2():
     for line in sys.stdin:
         a, _, b = line.rstrip("\n").partition(" ")
@@ -97,6 +117,8 @@ if __name__ == "__main__":
         mode_norm()
     elif m == "variants":
         mode_variants(sys.argv[2], sys.argv[3])
+    elif m == "decomp":
+        mode_decomp(sys.argv[2])
     elif m == "pbkdf2":
         mode_pbkdf2()
     elif m == "version":
